@@ -29,7 +29,7 @@ STEP_POOL = [1, 2, 3, 4, 5, 6, 7, 8, 12, 16, 24, 48]
 
 @st.composite
 def _case(draw, size=1):
-    pitches = draw(st.sampled_from([(60, 61, 62), (60, 61, 62, 64), (60,), (60, 61), (21, 108), (0, 127, 21, 108)]))
+    pitches = draw(gens.pitch_pool([(60, 61, 62), (60, 61, 62, 64), (60,), (60, 61)]))
     notes = draw(gens.wellformed_notes(channels=(0, 1), pitches=pitches, max_notes=10 * size, max_len=60, max_gap=50,
                                        start_max=60))
     if draw(st.integers(0, 2)) == 0 and notes:
